@@ -190,6 +190,69 @@ async def explore_schema(s, cases, rng, per_case_limit, other_cfg_runs):
     return out
 
 
+# `execute` terminates whichever concurrency options are chosen -- also when something on the DIRECTIVE side fails while
+# several executions of one field overlap: directives applied in the SDL whose own arguments cannot be coerced (the engine
+# builds such schemas and fails the field on every execution), next to ones with valid arguments
+DIRECTIVE_SDL = """
+directive @lim(n: Int!) on FIELD_DEFINITION
+directive @ok(n: Int = 1) on FIELD_DEFINITION
+type Item { v: Int @lim(n: "abc") w: Int @ok(n: 2) u: Int @lim }
+type Query { items: [Item] broken: Int @lim(n: "abc") fine: Int @ok one: Item }
+"""
+DIRECTIVE_QUERIES = ["{ items { v w } }", "{ b1: broken b2: broken fine }", "{ items { u v } one { v u w } broken }",
+                     "{ items { w } fine f2: fine }"]
+
+
+async def directive_termination_scenario(timeout=6.0):
+    from tartiflette import create_engine, Resolver, Directive
+    from tartiflette.resolver.default import sync_arguments_coercer
+    problems, n = [], 0
+    answers = {}
+    for cfg in CONFIGS:
+        name = fresh_schema_name("c08dir")
+        for dn in ("lim", "ok"):
+            def mkd(dn):
+                @Directive(dn, schema_name=name)
+                class D:          # pylint: disable=unused-variable
+                    async def on_field_execution(self, directive_args, next_resolver, parent, args, ctx, info):
+                        await asyncio.sleep(0)
+                        return await next_resolver(parent, args, ctx, info)
+            mkd(dn)
+        kw = dict(schema_name=name, parent_concurrently=cfg["parent"], list_concurrently=cfg["list"])
+        if cfg["args"] == "sync":
+            kw["arguments_coercer"] = sync_arguments_coercer
+
+        @Resolver("Query.items", **kw)
+        async def items(parent, args, ctx, info):       # pylint: disable=unused-variable
+            return [{"v": 1, "w": 2, "u": 3}, {"v": 4, "w": 5, "u": 6}, {"v": 7, "w": 8, "u": 9}]
+
+        @Resolver("Query.one", **kw)
+        async def one(parent, args, ctx, info):         # pylint: disable=unused-variable
+            await asyncio.sleep(0)
+            return {"v": 1, "w": 2, "u": 3}
+        engine = await create_engine(DIRECTIVE_SDL, schema_name=name, coerce_parent_concurrently=cfg["parent"],
+                                     coerce_list_concurrently=cfg["list"])
+        for q in DIRECTIVE_QUERIES:
+            for rnd in range(2):
+                n += 1
+                try:
+                    resp = await asyncio.wait_for(engine.execute(q, initial_value={"broken": 1, "fine": 2}), timeout)
+                except asyncio.TimeoutError:
+                    problems.append({"sdl": DIRECTIVE_SDL, "query": q, "configuration": cfg, "execution": rnd + 1,
+                                     "kind": "execute has not returned after %.0f s" % timeout})
+                    break
+                except Exception as e:  # pylint: disable=broad-except
+                    problems.append({"sdl": DIRECTIVE_SDL, "query": q, "configuration": cfg, "kind": "execute raised %r" % e})
+                    break
+                key = (json.dumps(resp.get("data"), sort_keys=True),
+                       sorted(json.dumps([e.get("path"), e.get("message")], default=repr) for e in resp.get("errors") or []))
+                if answers.setdefault(q, (cfg, key))[1] != key:
+                    problems.append({"sdl": DIRECTIVE_SDL, "query": q, "configuration": cfg, "execution": rnd + 1,
+                                     "kind": "the response differs from the one under configuration %r" % (answers[q][0],),
+                                     "response": repr(resp)[:1500], "other": repr(answers[q][1])[:1500]})
+    return problems, n
+
+
 def data_key(resp):
     import re
     return re.sub(r"0x[0-9a-fA-F]+", "0x", json.dumps(resp.get("data"), sort_keys=False, default=repr))
@@ -261,12 +324,16 @@ def main(tier_, replay=None):
             mism.append((s,) + items[i])
         for i in common.parse_Z_list(so, "seq_models_disagree") or []:
             seq_dis.append((s,) + items[i])
+    dir_problems, dir_runs = asyncio.run(directive_termination_scenario())
+    total_runs += dir_runs
+    for pr in dir_problems[:3]:
+        rep.violation(dict(pr, property="C08"))
     for s, c, r, cfg, why in viol[:5]:
         rep.violation({"property": "C08", "kind": why, "sdl": gen.schema_sdl(s), "query": c["query"],
                        "variables": c["variables"], "oracle_seed": c["oracle_seed"], "configuration": cfg,
                        "schedule (released response paths, in order)": [list(p) for p in r["picks"]],
                        "response": repr(r["response"])[:2500], "start_finish_log": [(k, list(p)) for k, p in r["log"]][:80]})
-    if not viol:
+    if not viol and not dir_problems:
         if not proofs_ok:
             rep.violation({"property": "C08", "what": "proof obligation no longer checks", "file": b.get("failed_file"),
                            "theorem": b.get("failed_lemma"), "gate": gate, "log_tail": b["log"][-1500:]}, no_input=True)
